@@ -56,6 +56,7 @@ def shards(tier, seed):
         out.append(dict(name="sub/B%d/L%d" % (B, L), kind="sub", B=B, L=L, weight=(L * 4) ** (2 * min(B, 2))))
     out.append(dict(name="history", kind="history", B=1, L=4, weight=3000))
     out.append(dict(name="long", kind="long", B=3, L=300, weight=3000))
+    out.append(dict(name="many", kind="many", B=5, L=4600, weight=3000))
     return out
 
 
@@ -364,8 +365,90 @@ def run_long(rec, tier, seed):
     rec.sample(dict(kind="long", B=B, L=L, positions=pos, variant_sets=len(sets)))
 
 
+def run_many(rec, tier, seed):
+    """Variant tables with many rows (beyond 16 / 255 rows, many variants per example, rows in shuffled order), per-example
+    variant counts that differ by more than 256 / 2048, and every storage type for X."""
+    from tangermeme.variant_effect import deletion_effect, insertion_effect, substitution_effect
+    rs = numpy.random.RandomState(23 + seed)
+    dts = [torch.float32, torch.float64, torch.int8, torch.uint8, torch.int64, torch.float16, torch.bfloat16]
+    # ---- deletions: counts 4105 / 1 / 521 / 0 / 2 in one call
+    B, L = 5, 4600
+    codes = rs.randint(0, A, (B, L))
+    counts = [4105, 1, 521, 0, 2]
+    per = {b: sorted(rs.choice(L, size=counts[b], replace=False).tolist()) for b in range(B)}
+    per[1] = [L - 1]
+    rows = [(b, p) for b in range(B) for p in per[b]]
+    rows = [rows[i] for i in rs.permutation(len(rows))]
+    m = max(counts)
+    for dt in dts:
+        X = ohe(codes, A, dt)
+        Xc = X.clone()
+        for left in (False, True):
+            exp_a, exp_b = [], []
+            for b in range(B):
+                gone = set(per[b])
+                s_ = [c for i, c in enumerate(codes[b]) if i not in gone]
+                t = m - len(per[b])
+                exp_a.append(s_[t:] if left else s_[:len(s_) - t])
+                exp_b.append(list(codes[b][m:]) if left else list(codes[b][:L - m]))
+            st, val, ok_args = _capture(deletion_effect, X, torch.tensor(rows, dtype=torch.int64).reshape(-1, 2), left, True, B)
+            rec.case(1, 1)
+            case = dict(fn="deletion_effect", L=L, B=B, deletions_per_example=counts, left=left, dtype=str(dt), seqs="rs(23+seed)")
+            if st != "ok":
+                rec.violation("deletion_effect:raises:many", case, observed=val)
+                continue
+            ga, oka = decode(val[1].float())
+            gb, okb = decode(val[0].float())
+            if not (oka and okb) or not numpy.array_equal(ga, numpy.array(exp_a)) or not numpy.array_equal(gb, numpy.array(exp_b)) or not ok_args:
+                rec.violation("deletion_effect:after_wrong:many", case)
+            if not torch.equal(X, Xc):
+                rec.violation("variant_effect:input_modified:many", case)
+                X = Xc.clone()
+    # ---- insertions / substitutions: 17, 24, 200, 300 rows, several per example, shuffled row order
+    for (B, L, k) in ((1, 40, 17), (3, 60, 8), (4, 120, 50), (2, 400, 150)):
+        codes = rs.randint(0, A, (B, L))
+        per = {b: sorted(rs.choice(L, size=k, replace=False).tolist()) for b in range(B)}
+        rows = [(b, p, int((p + b) % A)) for b in range(B) for p in per[b]]
+        for order in ("sorted", "shuffled"):
+            if order == "shuffled":
+                rows = [rows[i] for i in rs.permutation(len(rows))]
+            for dt in (torch.float32, torch.int8, torch.float16):
+                X = ohe(codes, A, dt)
+                Xc = X.clone()
+                for left in (False, True):
+                    exp = []
+                    for b in range(B):
+                        s_ = list(codes[b])
+                        for p in sorted(per[b], reverse=True):
+                            s_ = s_[:p] + [(p + b) % A] + s_[p:]
+                        exp.append(s_[-L:] if left else s_[:L])
+                    st, val, ok_args = _capture(insertion_effect, X, torch.tensor(rows, dtype=torch.int64).reshape(-1, 3), left, False, B)
+                    rec.case(1, 1)
+                    case = dict(fn="insertion_effect", L=L, B=B, insertions_per_example=k, row_order=order, left=left, dtype=str(dt), seqs="rs(23+seed)")
+                    if st != "ok":
+                        rec.violation("insertion_effect:raises:many", case, observed=val)
+                        continue
+                    ga, oka = decode(val[1].float())
+                    if not oka or not numpy.array_equal(ga, numpy.array(exp)) or not numpy.array_equal(decode(val[0].float())[0], codes):
+                        rec.violation("insertion_effect:after_wrong:many", case)
+                exp = codes.copy()
+                for (b, p, c) in rows:
+                    exp[b, p] = c
+                st, val, ok_args = _capture(substitution_effect, X, torch.tensor(rows, dtype=torch.int64).reshape(-1, 3), None, True, B)
+                rec.case(1, 1)
+                case = dict(fn="substitution_effect", L=L, B=B, substitutions_per_example=k, row_order=order, dtype=str(dt), seqs="rs(23+seed)")
+                if st != "ok" or not numpy.array_equal(decode(val[1].float())[0], exp) or not numpy.array_equal(decode(val[0].float())[0], codes) or not ok_args:
+                    rec.violation("substitution_effect:after_wrong:many", case, observed=val if st != "ok" else None)
+                if not torch.equal(X, Xc):
+                    rec.violation("variant_effect:input_modified:many", case)
+    rec.sample(dict(kind="many", deletion_counts=counts, dtypes=[str(d) for d in dts], table_rows=[17, 24, 200, 300]))
+
+
 def run_shard(sh, tier, seed):
     rec = Recorder(PID, sh["name"])
+    if sh["kind"] == "many":
+        run_many(rec, tier, seed)
+        return rec.result()
     if sh["kind"] == "long":
         run_long(rec, tier, seed)
         return rec.result()
@@ -382,6 +465,12 @@ def run_shard(sh, tier, seed):
 def replay(v):
     from tangermeme import variant_effect as VE
     c = v["case"]
+    if v["sig"].endswith(":many") or v["sig"].endswith(":long"):
+        rec = Recorder(PID, "replay")
+        (run_many if v["sig"].endswith(":many") else run_long)(rec, "quick", 0)
+        hit = [x for x in rec.violations if x["sig"] == v["sig"]]
+        return (not hit), "re-ran the %s shard: %d violations with signature %s%s" % (
+            v["sig"].rsplit(":", 1)[1], len(hit), v["sig"], ("\nfirst: %s" % hit[0]) if hit else "")
     seqs = c["seqs"]
     codes = numpy.array([["ACGT".index(ch) for ch in s] for s in seqs])
     X = ohe(codes, A)
